@@ -2,7 +2,7 @@
 import re
 
 from .lib import (ITER_PLUMBING, PLUMBING, borrow_root, callee_allow, callers, closure_args_of_call, element_sources, lit_strs, operand_local)
-from .lib_c12 import (STATUS_PATH, TO_STRING, Origin, agg_field_op, coded_impls, const_bool_operand, const_val, direct_element_sources, eval_bool_paths, field_sources, from_impls, norm_ty, op_const_path,
+from .lib_c12 import (STATUS_PATH, TO_STRING, Origin, agg_field_op, closure_captures, coded_impls, const_bool_operand, const_val, direct_element_sources, eval_bool_paths, field_sources, from_impls, norm_ty, op_const_path,
                       only_plumbing, params_of_type, ret_ok_sites, self_of_call)
 
 LEVEL = "other"
@@ -21,7 +21,10 @@ LEVEL_TEXT = ("Decides that document and live behaviour are generated from the s
 LEVEL_NOTE = "Trusts rustc MIR construction, monomorphic typing of generic arguments, const evaluation, the fact extractor, schemars/serde derives, openapiv3 data types."
 EXPLANATION = ("SIBLINGS-AGREE on generic arguments of get_metadata / make_subschema_for / metadata / from_request / for_object calls (resolved callee + generic args from MIR), "
                "SAME-SOURCE slices in ApiEndpoint::new / new_for_types and lookup_route, TABLE extraction from match arms (location, mime types, deserialiser choice), CONST evaluation "
-               "of CONTENT_TYPE_* and STATUS_CODE, SHAPE of HttpErrorResponseBody vs the literals of its hand-written schema, exact evaluation of the boolean `required` expression.")
+               "of CONTENT_TYPE_* and STATUS_CODE, SHAPE of HttpErrorResponseBody vs the literals of its hand-written schema, exact evaluation of the boolean `required` expression over all paths to the construction site. "
+               "Iterator chains and for loops are treated alike (a value is an *element* of a collection: Iterator::next in its slice, or the item parameter of an adaptor closure), closure "
+               "captures are resolved in the enclosing function, tables (mime types, locations) are read off path facts / arms cut at the switch, anchors are roles (parameter types, "
+               "field names, callees), never local names.")
 TRUSTED = ["rustc nightly MIR construction + const evaluation", "mirfacts extractor", "rules/engine.py slices, dominators", "schemars derive + serde derive agree on field names",
            "openapiv3 serialisation", "C12 (status table, JSON serialisation)"]
 
@@ -75,6 +78,20 @@ def _last_garg(t):
 
 
 # ----------------------------------------------------------------------------- R1
+def _deser_calls(ds, g, op, depth=0):
+    """Deserialiser calls the operand derives from.  `let v = deser(..)?; X { inner: v }`, `match deser(..) { Ok(v) => Ok(X { inner: v }), .. }` and
+    `deser(..).map(|v| X { inner: v })` are the same thing: in the last form the value is the item parameter of a closure given to a
+    payload combinator, and the payload is the receiver of that combinator in the enclosing function."""
+    sl = g.slice(op)
+    out = list(sl.calls(DESER))
+    if g.raw.get("kind") == "Closure" and any(p >= 2 for p in sl.params()) and depth < 3:
+        for h, st in closure_captures(ds, g):
+            for bb, t in h.live_calls(r"(Result::<T, E>|Option::<T>)::(map|and_then|map_or|map_or_else)$"):
+                if any(c is g for c, node in closure_args_of_call(h, t)):
+                    out += _deser_calls(ds, h, t["args"][0], depth + 1)
+    return out
+
+
 def r1_type_parameter(ctx):
     R = ctx.rule("C07.R1", "the document side and the runtime side of every extractor are instantiated with the same type: Path/Query/TypedBody document the parameter they "
                  "deserialise into; tuple extractors document exactly the members they extract; ApiEndpoint::new documents the handler's FuncParams / ResponseType", floor=32)
@@ -118,8 +135,7 @@ def r1_type_parameter(ctx):
             ctx.check(R, "%s:deserialises-into-its-parameter" % kind, False, "construction sites of %s reachable from from_request: %d (want 1)" % (adt, len(sites)), fr)
             continue
         g, b, st = sites[0]
-        sl = g.slice(st["rv"]["ops"][0])
-        des = sl.calls(DESER)
+        des = _deser_calls(ds, g, st["rv"]["ops"][0])
         tys = set(_last_garg(t) for c, bb, t in des)
         ctx.check(R, "%s:deserialises-into-its-parameter" % kind, bool(des) and tys == {P},
                   "`inner` derives from %s instantiated at %s (want %s)" % (sorted(set(c for c, _, _ in des)), sorted(x or "?" for x in tys), P), (g, b))
